@@ -178,6 +178,20 @@ def check_unit_step(case):
 # ---- 3. reference map ------------------------------------------------------------------
 
 
+def _decoy_image(spec):
+    """Another image of the same dimension with a different shape, voxel size and origin: building it and
+    using its coordinate system must not change anything about a coordinate system already held."""
+    dim = spec["dim"]
+    shape = [int(n) + 1 + k for k, n in enumerate(reversed(spec["shape"]))]
+    dims = [3.0 * float(d) + 0.5 + k for k, d in enumerate(reversed(spec["dimensions"]))]
+    dec = darsia.Image(np.zeros(shape), dimensions=dims, origin=[1.5 - k for k in range(dim)], space_dim=dim,
+                       scalar=True, series=False)
+    dcs = dec.coordinatesystem
+    dcs.coordinate(np.zeros((1, dim), dtype=int))
+    _ = dec.opposite_corner
+    return dec
+
+
 def check_matches_reference(case):
     spec, img, ref = _setup(case)
     cs = img.coordinatesystem
@@ -191,6 +205,33 @@ def check_matches_reference(case):
         i = int(np.argwhere(bad)[0][0])
         raise Violation("coordinate", f"voxel {pts[i].tolist()}: {got[i].tolist()} vs reference "
                         f"{want[i].tolist()}", _tags(spec))
+    # a coordinate system that is held keeps describing its own image while other images come and go
+    _decoy_image(spec)
+    again = np.asarray(cs.coordinate(pts), dtype=float)
+    if not np.array_equal(again, got):
+        i = int(np.argwhere(np.any(again != got, axis=1))[0][0])
+        raise Violation("held-system-changed", f"after another image of different geometry was built, the "
+                        f"coordinate system held maps voxel {pts[i].tolist()} to {again[i].tolist()} (before: "
+                        f"{got[i].tolist()})", _tags(spec))
+    x, ok, _ = _interior_points(spec, ref, pts, case["tseed"], stress=False)
+    if ok.any() and not np.array_equal(np.asarray(cs.voxel(x[ok])), pts[ok]):
+        raise Violation("held-system-changed", "after another image of different geometry was built, voxel() of "
+                        "the coordinate system held no longer returns the voxels of its interior points",
+                        _tags(spec))
+    # voxel index arrays of any integer dtype that holds the indices (np.uint8 masks, int32 index tables)
+    nn = pts[np.all(pts >= 0, axis=1)]
+    for dt in ("uint8", "uint16", "uint32", "uint64", "int16", "int32"):
+        if len(nn) == 0 or nn.max() > np.iinfo(dt).max:
+            continue
+        typed = nn.astype(dt)
+        g2 = np.asarray(cs.coordinate(typed), dtype=float)
+        w2 = ref.coordinate(nn)
+        bad = np.abs(g2 - w2) > 8 * EPS * _scale(ref, nn)
+        if bad.any() or typed.dtype != np.dtype(dt) or not np.array_equal(typed, nn):
+            i = int(np.argwhere(bad)[0][0]) if bad.any() else 0
+            raise Violation(f"coordinate-index-dtype:{'unsigned' if dt.startswith('u') else 'signed'}",
+                            f"voxel {nn[i].tolist()} given as {dt}: {g2[i].tolist()} vs reference {w2[i].tolist()}",
+                            _tags(spec))
     # all voxels / coordinates properties
     return Outcome(_nontrivial(spec), _key(spec), _labels(spec), evals=len(pts))
 
